@@ -17,4 +17,6 @@ def run(P, R, L):
     K.ts2_writer_fragment_types(P, R, L)
     R.clause("GRD-18", "short reads are noticed: outside the file-system layer every read is read_exact or has its byte count compared with the expected length")
     K.grd18_short_reads(P, R, L)
+    R.clause("FS-1", "FileSystem::create_file honours its append flag in every implementation (a re-opened log is continued at its end)")
+    K.fs1_create_file_modes(P, R, L)
     R.not_decided += ["block-boundary arithmetic beyond the guards above: fragment sizes, trailer padding width, offset bookkeeping after each emit (value level)"]
